@@ -159,12 +159,40 @@ class C03:
         return isinstance(d, dict) and any(len(tl) >= 2 or tl[0][0] != tl[0][1] for _, _, tl in d["tl"])
 
 
+def reader_rows(rng):
+    """rows 'u v op t' of an interaction list as a user may write it: a '-' row closes the pair's latest run at ANY later
+    instant (not only right after its end), pairs reappear after a gap.  Returns (rows, lo, hi)."""
+    rows, open_, t = [], {}, rng.randint(-2, 3)
+    for _ in range(rng.choice([2, 4, 6, 9])):
+        t += rng.choice([0, 1, 2, 3])
+        u, v = rng.randint(1, 4), rng.randint(1, 4)
+        k = (u, v)
+        if k in open_ and open_[k] < t and rng.random() < 0.6:
+            rows.append([u, v, 0, t]); open_.pop(k); open_.pop((v, u), None)
+        elif k not in open_ and (v, u) not in open_:
+            rows.append([u, v, 1, t]); open_[k] = t
+    ts = [r[3] for r in rows] or [0]
+    return rows, min(ts) - 2, max(ts) + 2
+
+
+def with_reader_rows(it, rng):
+    """one case in eight also carries an interaction list: the property holds for the graph read from it as well"""
+    for i, c in enumerate(it):
+        if i % 8 == 3 and c.get("ids", "int") == "int":
+            c["rrows"] = reader_rows(rng)
+        yield c
+
+
+def rint_line(dst, cls, rows):
+    return ("rint %d %d %d %s" % (dst, cls, len(rows), " ".join("%d %d %d %d" % tuple(r) for r in rows))).rstrip()
+
+
 class C04:
     id = "C04"
 
     @staticmethod
     def cases(tier, rng):
-        return history_stream(tier, rng, True)
+        return with_reader_rows(history_stream(tier, rng, True), rng)
 
     @staticmethod
     def lines(case):
@@ -172,17 +200,28 @@ class C04:
         lo, hi = gen.window(case["ops"], 2)
         L += [gen.op_line(0, op) for op in case["ops"]]
         L += ["pres 0 %d %d" % (lo, hi), "q4 0 %d %d" % (lo, hi)]
+        if case.get("rrows"):
+            rows, lo2, hi2 = case["rrows"]
+            L += [rint_line(1, case["cls"], rows), "pres 1 %d %d" % (lo2, hi2), "q4 1 %d %d" % (lo2, hi2)]
         return L
 
     @staticmethod
     def judge(case, outs):
         lo, hi = gen.window(case["ops"], 2)
         n = len(case["ops"])
+        fails = []
+        if case.get("rrows") and outs[3 + n] == "ok" and not oracles.is_err(outs[4 + n]):
+            # the graph read from an interaction list is a removal-enabled graph like any other
+            rows, lo2, hi2 = case["rrows"]
+            if oracles.is_err(outs[5 + n]):
+                fails.append(F("C04.raised", where="graph read from an interaction list", got=outs[5 + n]))
+            else:
+                fails += [dict(f, clause=f["clause"] + "~read_interactions") for f in oracles.c04(bool(case["cls"]), outs[5 + n], outs[4 + n], lo2, hi2)]
         if any(o not in ("ok", "E:VE", "E:NXE") for o in outs[1:1 + n]):
-            return []
+            return fails
         if oracles.is_err(outs[2 + n]):
-            return [F("C04.raised", got=outs[2 + n])]
-        return oracles.c04(bool(case["cls"]), outs[2 + n], outs[1 + n], lo, hi)
+            return fails + [F("C04.raised", got=outs[2 + n])]
+        return fails + oracles.c04(bool(case["cls"]), outs[2 + n], outs[1 + n], lo, hi)
 
     @staticmethod
     def nontrivial(case, outs):
@@ -195,7 +234,7 @@ class C05:
 
     @staticmethod
     def cases(tier, rng):
-        return history_stream(tier, rng, True)
+        return with_reader_rows(history_stream(tier, rng, True), rng)
 
     @staticmethod
     def lines(case):
@@ -203,15 +242,22 @@ class C05:
         lo, hi = gen.window(case["ops"], 3)
         L += [gen.op_line(0, op) for op in case["ops"]]
         L += ["dump 0", "pres 0 %d %d" % (lo, hi), "fstream 0"]
+        if case.get("rrows"):
+            rows, lo2, hi2 = case["rrows"]
+            L += [rint_line(1, case["cls"], rows), "dump 1", "pres 1 %d %d" % (lo2 - 1, hi2 + 1)]
         return L
 
     @staticmethod
     def judge(case, outs):
         lo, hi = gen.window(case["ops"], 3)
         n = len(case["ops"])
+        extra = []
+        if case.get("rrows") and outs[4 + n] == "ok" and not oracles.is_err(outs[5 + n]) and not oracles.is_err(outs[6 + n]):
+            rows, lo2, hi2 = case["rrows"]
+            extra = [dict(f, clause=f["clause"] + "~read_interactions") for f in oracles.c05(bool(case["cls"]), outs[5 + n], outs[6 + n], lo2 - 1, hi2 + 1)]
         if any(o not in ("ok", "E:VE", "E:NXE") for o in outs[1:1 + n]):
-            return []
-        fails = oracles.c05(bool(case["cls"]), outs[1 + n], outs[2 + n], lo, hi)
+            return extra
+        fails = extra + oracles.c05(bool(case["cls"]), outs[1 + n], outs[2 + n], lo, hi)
         d = outs[1 + n]
         if outs[3 + n] != {"ev": d["ev"], "chrono": d["chrono"]}:
             fails.append(F("C05.functional_form", method={"ev": d["ev"], "chrono": d["chrono"]}, function=outs[3 + n]))
